@@ -19,6 +19,12 @@ type Mutex struct {
 func (m *Mutex) Lock() {
 	if vsched.Active {
 		vsched.MutexLock(unsafe.Pointer(m))
+		// granted by the model: the real lock must be free. If it is not, a call that
+		// has already returned (or panicked) left it held: nobody will ever release it.
+		if !m.mu.TryLock() {
+			vsched.Stuck("Mutex.Lock of a mutex left locked by a finished call")
+		}
+		return
 	}
 	m.mu.Lock()
 }
@@ -49,6 +55,10 @@ type RWMutex struct {
 func (m *RWMutex) Lock() {
 	if vsched.Active {
 		vsched.RWLock(unsafe.Pointer(m))
+		if !m.mu.TryLock() {
+			vsched.Stuck("RWMutex.Lock of a mutex left locked by a finished call")
+		}
+		return
 	}
 	m.mu.Lock()
 }
@@ -63,6 +73,10 @@ func (m *RWMutex) Unlock() {
 func (m *RWMutex) RLock() {
 	if vsched.Active {
 		vsched.RWRLock(unsafe.Pointer(m))
+		if !m.mu.TryRLock() {
+			vsched.Stuck("RWMutex.RLock of a mutex left locked by a finished call")
+		}
+		return
 	}
 	m.mu.RLock()
 }
